@@ -531,3 +531,94 @@ def replay_shadow():
     d = (elec_energy_xl(P, P, F, H) - elec_energy(P, F, H)).abs().max().item()
     print("replay shadow energy: |E_xl(D=P) - E_scf| = %.3e" % d)
     return d > 1e-10
+
+
+def replay_fermi_padding():
+    """float64, real Fermi_Q on a padded batch (a 4-orbital molecule next to H2 with 2 orbitals) at a high electronic
+    temperature: the occupations of the physical orbitals of every molecule must add up to its number of occupied orbitals"""
+    from seqm.seqm_functions.fermi_q import Fermi_Q
+
+    g = torch.Generator().manual_seed(2)
+    H = torch.zeros(2, 8, 8, dtype=torch.float64)
+    A = torch.rand(4, 4, generator=g, dtype=torch.float64) - 0.5
+    H[0, :4, :4] = A + A.T
+    H[1, 0, 0], H[1, 4, 4], H[1, 0, 4], H[1, 4, 0] = -0.4, 0.3, 0.2, 0.2
+    out = Fermi_Q(H, 40000.0, torch.tensor([2, 1]), torch.tensor([1, 0]), torch.tensor([0, 2]), 8.61739e-5, 0)
+    Fe = out[4]
+    norb = [4, 2]
+    worst = 0.0
+    for b in range(2):
+        s = Fe[b, : norb[b]].sum().item()
+        pad = Fe[b, norb[b] :].abs().max().item() if norb[b] < Fe.shape[1] else 0.0
+        tr = out[0][b].diagonal().sum().item() / 2
+        print("replay Fermi_Q molecule %d: sum of physical occupations %.6f (Nocc %d), largest padded occupation %.2e, tr(D)/2 %.6f" % (b, s, [2, 1][b], pad, tr))
+        worst = max(worst, abs(s - [2, 1][b]), pad, abs(tr - [2, 1][b]))
+    return worst > 1e-6
+
+
+class _StopFermi(Exception):
+    pass
+
+
+@obligation(PID, "e", title="electronic-temperature occupations (Krylov/KSA variant) in a padded batch: whenever the chemical-potential iteration of Fermi_Q stops, the occupations of each molecule's own orbitals add up to its number of occupied orbitals within the tolerance, and padded orbital slots carry no occupation — for arbitrary orbital energies and occupation values")
+def ob_e(ob):
+    from seqm.seqm_functions import fermi_q as FQ
+
+    ob.encodes(FQ.Fermi_Q)
+    ob.bound("2 molecules x 4 orbital slots (molecule 1 has 2 physical orbitals and 2 padded slots); orbital energies symbolic; the Fermi function is uninterpreted: every evaluation returns fresh values in (0,1); exits of the Newton loop after 1 and after 2 evaluations are explored")
+    ob.assume("eigen-solver replaced by a recorder (eigenvectors = identity); density/entropy assembly after the loop is executed but only occupations are checked")
+    E = S.reals("e", (2, 4))
+    calls = [0]
+    fsyms = []
+    saved = (FQ.sym_eig_trunc, torch.sigmoid)
+    FQ.sym_eig_trunc = lambda H0, nHeavy, nHydro, Nocc, eig_only=False: (SymTensor(E.copy()), torch.eye(4, dtype=torch.float64).repeat(2, 1, 1))
+
+    def sigmoid(x):
+        calls[0] += 1
+        if calls[0] > 2:
+            raise _StopFermi()
+        f = S.reals("f%d" % calls[0], (2, 4))
+        fsyms.append(f)
+        return SymTensor(f.copy())
+
+    torch.sigmoid = sigmoid
+
+    def fn():
+        calls[0] = 0
+        del fsyms[:]
+        try:
+            with symbolic_factories(bool_symbolic=True):
+                out = FQ.Fermi_Q(torch.zeros(2, 8, 8, dtype=torch.float64), 40000.0, torch.tensor([2, 1]), torch.tensor([1, 0]), torch.tensor([0, 2]), 8.61739e-5, 0)
+        except _StopFermi:
+            return None
+        Fe = out[4]
+        return (Fe.a.copy() if isinstance(Fe, SymTensor) else S.to_obj(Fe), calls[0])
+
+    rng = [z3.And(z3.Real("f%d_%d_%d" % (c, b, k)) > 0, z3.Real("f%d_%d_%d" % (c, b, k)) < 1) for c in (1, 2) for b in range(2) for k in range(4)]
+    try:
+        ex = Explorer(assumptions=rng, piecewise="ite", kind="nra", max_paths=40)
+        res = ex.run(fn)
+    finally:
+        FQ.sym_eig_trunc, torch.sigmoid = saved
+    ob.paths += ex.paths
+    exits = [(pc, side, r) for pc, side, r in res if r is not None]
+    ob.require(len(exits) >= 2, "expected loop exits after the first and the second evaluation, got %d returning paths" % len(exits))
+    tol = S.rv(1e-9)  # the float the code compares with
+    nocc, norb = [2, 1], [4, 2]
+    absz = lambda e: z3.If(e >= 0, e, -e)
+    for pc, side, (Fe, ncalls) in exits:
+        base = rng + list(pc) + list(side)
+        for b in range(2):
+            claims = [("sum of physical occupations = Nocc", absz(sum(Fe[b, k] for k in range(norb[b])) - nocc[b]) <= tol)]
+            claims += [("padded slot %d empty" % k, Fe[b, k] == 0) for k in range(norb[b], 4)]
+            for name, c in claims:
+                lab = "e:exit after %d evaluation(s), molecule %d: %s" % (ncalls, b, name)
+                v, m = smt.prove(c, base, lab, "nra", 60)
+                if v == "sat":
+                    if replay_fermi_padding():
+                        ob.violation("Fermi_Q: %s fails when the chemical-potential iteration stops (exit after %d evaluation(s)): padded orbital slots take part in the electron count, so a padded molecule loses electrons at elevated electronic temperature" % (name, ncalls), {"module": "harness.C09", "func": "replay_fermi_padding", "args": {}})
+                        return
+                    raise HarnessError("Fermi_Q counterexample did not reproduce (%s)" % lab)
+                ob.verdict(v, lab)
+    x, y = z3.Reals("x y")
+    expect_refuted(ob, x == 1, [x + y == 1, y > 0], "twin: an occupation lost to a padded slot is noticed", "nra")
